@@ -94,6 +94,8 @@ pub enum RCmd {
 pub enum LCmd {
     Accept { k: String, name: String, cancel: oneshot::Receiver<()> },
     Inspect { k: String, req: String, cancel: oneshot::Receiver<()> },
+    /// messages waiting in the listener queues (verification hook)
+    QueueLen { reply: oneshot::Sender<usize> },
     Drop,
 }
 
@@ -111,6 +113,8 @@ pub struct World {
     pub senders: HashMap<String, mpsc::UnboundedSender<SCmd>>,
     pub receivers: HashMap<String, mpsc::UnboundedSender<RCmd>>,
     pub requests: HashMap<String, Request>,
+    /// calls that own the listener (accept/inspect) or a request object (reqaccept/reqreject): id ↦ (side, on listener)
+    pub lcalls: HashMap<String, (usize, bool)>,
     pub cancels: HashMap<String, oneshot::Sender<()>>,
     /// pending call ids per handle key, so that dropping a handle first cancels its calls
     pub calls_of: HashMap<String, Vec<String>>,
@@ -431,6 +435,9 @@ fn listener_actor(
                         _ = cancel => cancelled(&pending, &k),
                     }
                 }
+                LCmd::QueueLen { reply } => {
+                    let _ = reply.send(listener.verif_queue_len());
+                }
                 LCmd::Drop => break,
             }
         }
@@ -499,6 +506,7 @@ impl World {
             senders: HashMap::new(),
             receivers: HashMap::new(),
             requests: HashMap::new(),
+            lcalls: HashMap::new(),
             cancels: HashMap::new(),
             calls_of: HashMap::new(),
             probes: Default::default(),
@@ -575,6 +583,36 @@ impl World {
                 None => ("none".into(), "none".into()),
             };
             tr(format!("credits {name} {side} pool={pool} used={used} limit={limit}"));
+        }
+    }
+
+    /// One `listen` line per side with a listener: requests waiting in its queues (when no call owns the
+    /// listener) and request objects held by the script or by pending accept/reject calls.
+    pub async fn log_listen(&mut self) {
+        for side in 0..2 {
+            let Some(l) = self.listeners[side].clone() else { continue };
+            let (mut busy, mut held) = (false, 0usize);
+            {
+                let p = self.pending.lock().unwrap();
+                self.lcalls.retain(|k, _| p.contains(k));
+                for (s, on_listener) in self.lcalls.values() {
+                    if *s == side {
+                        if *on_listener { busy = true } else { held += 1 }
+                    }
+                }
+            }
+            held += self.requests.keys().filter(|k| k.ends_with(&format!("@{}", side_name(side)))).count();
+            if busy {
+                tr(format!("listen {} q=busy held={held}", side_name(side)));
+                continue;
+            }
+            let (rtx, rrx) = oneshot::channel();
+            if l.send(LCmd::QueueLen { reply: rtx }).is_err() {
+                continue;
+            }
+            if let Ok(q) = rrx.await {
+                tr(format!("listen {} q={q} held={held}", side_name(side)));
+            }
         }
     }
 
@@ -777,6 +815,7 @@ impl World {
             "settle" => {
                 self.settle().await;
                 self.log_credits();
+                self.log_listen().await;
                 tr(format!("settled pending={}", self.pending_list()));
             }
             "advance" => {
@@ -832,6 +871,7 @@ impl World {
             "accept" => {
                 let (k, side, name) = (t[1].to_string(), side_idx(t[2]), t[3].to_string());
                 let cancel = self.begin(&k);
+                self.lcalls.insert(k.clone(), (side, true));
                 match &self.listeners[side] {
                     Some(l) => {
                         let _ = l.send(LCmd::Accept { k, name, cancel });
@@ -842,6 +882,7 @@ impl World {
             "inspect" => {
                 let (k, side, req) = (t[1].to_string(), side_idx(t[2]), t[3].to_string());
                 let cancel = self.begin(&k);
+                self.lcalls.insert(k.clone(), (side, true));
                 match &self.listeners[side] {
                     Some(l) => {
                         let _ = l.send(LCmd::Inspect { k, req, cancel });
@@ -853,6 +894,7 @@ impl World {
                 // reqaccept k side req name
                 let (k, side, reqn, name) = (t[1].to_string(), side_idx(t[2]), t[3], t[4].to_string());
                 let cancel = self.begin(&k);
+                self.lcalls.insert(k.clone(), (side, false));
                 match self.requests.remove(&format!("{}@{}", reqn, side_name(side))) {
                     None => done(&self.pending, &k, "err no-such-request".into()),
                     Some(req) => {
@@ -879,6 +921,7 @@ impl World {
                 let (k, side, reqn) = (t[1].to_string(), side_idx(t[2]), t[3]);
                 let no_ports = t.get(4).map(|v| *v == "1").unwrap_or(false);
                 let cancel = self.begin(&k);
+                self.lcalls.insert(k.clone(), (side, false));
                 match self.requests.remove(&format!("{}@{}", reqn, side_name(side))) {
                     None => done(&self.pending, &k, "err no-such-request".into()),
                     Some(req) => {
